@@ -178,6 +178,16 @@ class Closure:
         return "<closure %s %d caps>" % (self.key, len(self.captures))
 
 
+class Transparent:
+    """MaybeUninit / ManuallyDrop / MaybeDangling wrappers: every field projection leads to the same single slot"""
+
+    def __init__(self, v=None):
+        self.v = v
+
+    def __repr__(self):
+        return "<transparent %r>" % (self.v,)
+
+
 class FnPtr:
     def __init__(self, name):
         self.name = name
@@ -699,6 +709,8 @@ class Executor:
                     fl[idx] = self.fresh_value(ty, "%s.%s.%d" % (e.name, var, idx))
                 return fl[idx]
             raise Unsupported("downcast of " + repr(e))
+        if isinstance(b, Transparent):
+            return b
         if isinstance(b, Tup):
             return b.items[idx]
         if isinstance(b, Adt):
@@ -736,6 +748,12 @@ class Executor:
             seq = self.deref(v) if isinstance(v, Ref) else v
             c = self.seq_item(seq, step[1])
             tset(c, "v", self.update_path(c.v, path[1:], val))
+            return v
+        if isinstance(v, Transparent):
+            rest = [st for st in path if st[0] != "f"]
+            if rest:
+                raise Unsupported("non-field write through a MaybeUninit wrapper")
+            tset(v, "v", val)
             return v
         idx = step[1]
         child = self.project(v, step) if len(path) > 1 else None
@@ -1124,6 +1142,26 @@ class Executor:
                 if "<impl at" not in name and "{closure" not in name and name.endswith(tr + "::" + meth):
                     return lst[0]
             return None
+        m = re.match(r"^(?:[\w:]+::)?<impl (.+)>::(\w+)(::<.*>)?$", c, re.S)
+        if m and " at src/" not in m.group(1):
+            # inherent impl on an instantiation of a generic type (usually through a type alias): match the self type
+            want = _norm_ty(m.group(1))
+            meth = m.group(2)
+            cands = []
+            for name, lst in self.fns.items():
+                if name.endswith("::" + meth) and "<impl at" in name and "{closure" not in name:
+                    ii = self.impl_info(name)
+                    if not ii or ii[1] is not None:
+                        continue
+                    st = ii[3]
+                    alias = TYPE_ALIASES.get(base_ty(st))
+                    if _norm_ty(st) == want or (alias and _norm_ty(alias) == want):
+                        cands.extend(lst)
+            if len(cands) == 1:
+                return cands[0]
+            if len(cands) > 1:
+                raise Unsupported("ambiguous inherent method %s: %s" % (c, [f.name for f in cands]))
+            return None
         c2 = strip_turbofish(c)
         c2 = re.sub(r"<'_(, )?", "<", c2)
         parts = [p for p in c2.split("::")]
@@ -1244,6 +1282,13 @@ class Executor:
                 return itertools.chain([first], g)
         f = self.resolve(callee)
         if f is not None and f.blocks:
+            m = re.match(r"^<((?:&(?:mut )?)+)", callee)
+            if m:
+                # std's forwarding impls for references (`impl PartialEq<&B> for &A` ...): peel the extra reference levels
+                n = m.group(1).count("&")
+                args = list(args)
+                for _ in range(n):
+                    args = [self.load(a) if isinstance(a, Ref) and isinstance(self.load(a), Ref) else a for a in args]
             return self.run(f, args, depth + 1)
         raise Unsupported("no model, stub or MIR body for callee %s (called from %s)" % (callee, caller))
 
